@@ -35,6 +35,17 @@ class HarnessError(Exception):
     pass
 
 
+class CaseTimeout(BaseException):
+    """a single generated case ran longer than the watchdog allows (BaseException: must not be swallowed by bt's or the oracle's handlers)"""
+
+
+CASE_TIMEOUT_S = int(os.environ.get("VERIF_CASE_TIMEOUT", "300"))
+
+
+def _alarm(signum, frame):
+    raise CaseTimeout()
+
+
 def canon(spec):
     return json.dumps(spec, sort_keys=True, separators=(",", ":"), default=str)
 
@@ -145,8 +156,26 @@ def run_sub(ctx, sub, strategy, case_fn, max_examples, known_match=None, shrink_
             return
         st.evaluations += 1
         st.per_sub[sub] += 1
+        import signal
+
         try:
-            res = case_fn(spec)
+            signal.signal(signal.SIGALRM, _alarm)
+            signal.alarm(CASE_TIMEOUT_S)
+        except ValueError:
+            pass
+        try:
+            try:
+                res = case_fn(spec)
+            finally:
+                try:
+                    signal.alarm(0)
+                except ValueError:
+                    pass
+        except CaseTimeout:
+            # never a verdict: reported as inconclusive (exit 2) with the spec, so that a hang cannot pass silently
+            st.inconclusive.append({"sub": sub, "reason": "case exceeded %d s" % CASE_TIMEOUT_S, "spec": spec})
+            state["timeout"] = True
+            return
         except Discard as d:
             st.discards[sub + ":" + d.reason] += 1
             return
